@@ -158,31 +158,40 @@ def run_case(role, flavour, src, k, n0, rns, placement, part=None):
             s.teardown()
 
 
-def transmission_case(flavour, kind, n, part):
-    """Credit granted by an application reaches the wire with exactly that value."""
+def transmission_case(flavour, kind, n, part, when='after', with_pub=False):
+    """Credit granted by an application reaches the peer with exactly that value: one request frame carrying the initial n,
+    then one REQUEST_N(n) - whether request(n) is called after the request went out, in the same loop iteration as
+    subscribe(), or from inside on_subscribe (the canonical Reactive Streams place)."""
     s = Solo('client', flavour)
     try:
-        sub = RecSubscriber(s.w, s.ep, 'sub')
+        sub = RecSubscriber(s.w, s.ep, 'sub', request_on_subscribe=(n if when == 'in-on_subscribe' else None))
         if kind == 'stream':
             s.sock.request_stream(P(b'q')).initial_request_n(n).subscribe(sub)
         else:
-            s.sock.request_channel(P(b'q')).initial_request_n(n).subscribe(sub)
-        s.settle('Q')
-        sub.subscription.request(n)
+            from mc.app import RecPublisher
+            s.sock.request_channel(P(b'q'), RecPublisher(s.w, s.ep, 'pub') if with_pub else None).initial_request_n(n).subscribe(sub)
+        if when == 'after':
+            s.settle('Q')
+        if when != 'in-on_subscribe':
+            sub.subscription.request(n)
         s.settle('Q')
         fr = s.sent_on(1)
         v = []
+        ctx = kind + ('+publisher' if with_pub else '') + ('' if when == 'after' else ' | ' + when)
         req = [f for f in fr if f.type in (R.REQUEST_STREAM, R.REQUEST_CHANNEL)]
         rn = [f for f in fr if f.type == R.REQUEST_N]
         if len(req) != 1 or req[0].request_n != n:
-            v.append(('C06.credit-transmitted', 'C06.credit-transmitted | initial | %s' % kind, 'initial_request_n(%d) sent as %s' % (n, req)))
+            v.append(('C06.credit-transmitted', 'C06.credit-transmitted | initial | %s' % ctx, 'initial_request_n(%d) sent as %s' % (n, req)))
         if len(rn) != 1 or rn[0].request_n != n:
-            v.append(('C06.credit-transmitted', 'C06.credit-transmitted | request | %s' % kind, 'request(%d) sent as %s' % (n, rn)))
+            v.append(('C06.credit-transmitted', 'C06.credit-transmitted | request | %s' % ctx, 'request(%d) sent as %s' % (n, rn)))
+        elif req and fr.index(rn[0]) < fr.index(req[0]):
+            v.append(('C06.credit-transmitted', 'C06.credit-transmitted | request-n-before-the-request | %s' % ctx,
+                      'request(%d) went out as REQUEST_N before the stream existed for the peer (it drops it): %s' % (n, [str(f) for f in fr])))
         part.evaluations += 1
         part.traces += 1
         part.transitions += 2
         for rule, sig, detail in v:
-            part.violate(rule, sig, detail, {'kind': 'tx', 'flavour': flavour, 'req': kind, 'n': n})
+            part.violate(rule, sig, detail, {'kind': 'tx', 'flavour': flavour, 'req': kind, 'n': n, 'when': when, 'with_pub': with_pub})
     finally:
         s.teardown()
 
@@ -206,7 +215,9 @@ def run_unit(unit, part):
         for flavour in ('tcp', 'msg'):
             for kind in ('stream', 'channel'):
                 for n in (1, 2, 7, MAXN):
-                    transmission_case(flavour, kind, n, part)
+                    for when in ('after', 'same-iteration', 'in-on_subscribe'):
+                        for with_pub in ((False, True) if kind == 'channel' else (False,)):
+                            transmission_case(flavour, kind, n, part, when, with_pub)
         return
     L = 2 if tier == 'quick' else 3
     role, src, k, flavour = unit['role'], unit['src'], unit['k'], unit['flavour']
@@ -237,7 +248,7 @@ def replay(rec):
     if w['kind'] == 'tx':
         from mc.runner import Partial
         p = Partial()
-        transmission_case(w['flavour'], w['req'], w['n'], p)
+        transmission_case(w['flavour'], w['req'], w['n'], p, w.get('when', 'after'), w.get('with_pub', False))
         return bool(p.violations)
     placement = tuple(p if p == 'Q' else (('t', int(p[1:])) if str(p).startswith('t') else int(p)) for p in w['placement'])
     v, nsent, total, _ = run_case(w['role'], w['flavour'], w['src'], w['k'], w['n0'], tuple(w['rns']), placement)
